@@ -190,3 +190,68 @@ func HarnessCancelDuringTraffic() {
 	verif.Quiesce()
 	verif.Reach("cancel-during-traffic-done")
 }
+
+type CR struct {
+	Echo func(ctx context.Context, tok int64) (int64, error)
+	Fwd  func(ctx context.Context, p jsonrpc.RawParams) (int64, error) `rpc_method:"NS.Echo"`
+}
+
+// HarnessUnencodableCallAmongOthers: while N ordinary calls are in flight, another
+// call is issued whose request cannot be encoded (raw params that are not JSON).
+// Whatever happens to that call, the connection is healthy and the ordinary calls
+// return exactly once with the responses the peer then produces for them.
+func HarnessUnencodableCallAmongOthers() {
+	n := verif.Bound("N", 2)
+	l := verif.ListenWS()
+	answer := make(chan struct{})
+	go func() {
+		verif.Daemon()
+		pc := l.Accept()
+		var reqs []wireReq
+		for len(reqs) < n {
+			b, ok := pc.Recv()
+			if !ok {
+				return
+			}
+			var r wireReq
+			if json.Unmarshal(b, &r) != nil || r.ID == nil {
+				continue
+			}
+			reqs = append(reqs, r)
+		}
+		<-answer
+		for i := len(reqs) - 1; i >= 0; i-- {
+			rb, _ := json.Marshal(map[string]interface{}{"jsonrpc": "2.0", "id": reqs[i].ID, "result": reqs[i].Params[0]})
+			pc.Send(rb)
+		}
+		for {
+			if _, ok := pc.Recv(); !ok {
+				return
+			}
+		}
+	}()
+	var c CR
+	closer, err := jsonrpc.NewMergeClient(context.Background(), l.URL(), "NS", []interface{}{&c}, nil, jsonrpc.WithNoReconnect())
+	verif.Assert(err == nil, "client-created")
+	res := make([]result, n)
+	for i := 0; i < n; i++ {
+		i := i
+		go func() {
+			v, err := c.Echo(context.Background(), int64(100+i))
+			res[i].returns++
+			res[i].val, res[i].err = v, err
+		}()
+	}
+	verif.Quiesce() // all ordinary calls are at the peer
+	go func() { c.Fwd(context.Background(), jsonrpc.RawParams(`{"a":`)) }()
+	verif.Quiesce()
+	close(answer)
+	verif.Quiesce()
+	for i := 0; i < n; i++ {
+		verif.Assert(res[i].returns == 1, "every-ordinary-call-returns-exactly-once")
+		verif.Assert(res[i].err == nil && res[i].val == int64(100+i), "ordinary-calls-get-the-responses-produced-for-them")
+	}
+	closer()
+	verif.Quiesce()
+	verif.Reach("unencodable-call-done")
+}
